@@ -219,6 +219,14 @@ def element_names(rng, n, kind=None):
         names = rng.sample(pool, n) if n <= len(pool) else [f"e{i}" for i in range(n)]
     elif kind == "intlike":
         names = [str(v) for v in rng.sample(range(0, 60), n)]
+    elif kind == "int_and_str":
+        # real ints next to words (and sometimes digit strings): the dataset must end up holding strings only
+        names = list(rng.sample(range(0, 60), n))
+        k = rng.randrange(n)
+        names[k] = rng.choice(["w", "a", "x1"])
+        if n >= 3 and rng.random() < 0.5:
+            j = (k + 1) % n
+            names[j] = str(names[j])
     elif kind == "digits_plus_word":
         # digit strings and a single word: the dataset holds strings, but a sub-problem made of digit strings only
         # is integer-like on its own
